@@ -1,10 +1,10 @@
 """C13 - the library's own answers (apply_command) are accepted by the corresponding checkers."""
-import exercises as E
+import exercises2 as E
 import coqlit as L
 import props.C12 as C12
 
 COQ_IMPORTS = C12.COQ_IMPORTS
-RULE = ('exercise instances of the 22 exercise kinds with random reference DFAs / NFAs / regexps and non-degenerate grammars (every variable derives a non-empty word): the answer computed by notebooks/make_notebook.apply_command '
+RULE = ('exercise instances of the 31 exercise kinds (see C12) with random reference DFAs / NFAs / regexps and non-degenerate grammars (every variable derives a non-empty word): the answer computed by notebooks/make_notebook.apply_command '
         '(generator + printer) is fed to the corresponding check_* function (parser + checker) with stdout captured; the shipped examples are included. Relation: the checker prints OK, and the proved model checker accepts the '
         'parsed answer. Non-trivial = the answer text has >= 3 lines or >= 5 characters; distinct by (kind, seed).')
 CODES = C12.CODES
@@ -12,6 +12,7 @@ ASSUMPTIONS = ['grammars non-degenerate; alphabets without the characters 0 and 
 RESIDUE = C12.RESIDUE
 SHARD = 25
 JUDGE = 'C12'
+EXTRA_JUDGES = C12.EXTRA_JUDGES
 
 
 def gen(rng, tier):
